@@ -1103,6 +1103,7 @@ impl PoolExec {
                 seed: (seed << 8) ^ j ^ ((self.w.blocks.len() as u64) << 44),
                 mutation: None,
                 plant: Vec::new(),
+                ts_mode: None,
             };
             let b = self.w.build_child(parent, &recipe);
             let v = self.w.blocks[b].view.clone();
